@@ -897,11 +897,28 @@ impl World {
         // build the batch; `dups` = (position, seq<<20|idx reference) re-uses an earlier id (C18)
         let mut msgs = Vec::with_capacity(n as usize);
         let mut recs = Vec::with_capacity(n as usize);
+        let mut near_miss = 0u64;
         for i in 0..n {
-            let ov = dups.iter().find(|(pos, _)| *pos == i).map(|(_, r)| ((self.hist as u128) << 64) | (*r as u128));
+            let ov = dups.iter().find(|(pos, _)| *pos == i).map(|(_, r)| {
+                let (variant, low) = (*r >> 62, *r & ((1u64 << 62) - 1));
+                let (hi, lo) = (self.hist, low);
+                let (hi, lo) = match variant {
+                    0 => (hi, lo),                  // a true repeat of an earlier id
+                    1 => (hi ^ (1u64 << 63), lo),   // same low half, other high half
+                    2 => (lo, hi),                  // halves swapped (equal under any symmetric fold)
+                    _ => (hi ^ 1, lo ^ 1),          // equal under an xor fold of the halves
+                };
+                if variant != 0 {
+                    near_miss += 1;
+                }
+                ((hi as u128) << 64) | lo as u128
+            });
             let (m, r) = self.make_message(seq, i, sz, headers, ov);
             msgs.push(m);
             recs.push(r);
+        }
+        for _ in 0..near_miss {
+            self.event("near_miss_id_sent");
         }
         let partitioning = if balanced {
             Partitioning::balanced()
